@@ -1607,8 +1607,10 @@ class AsyncGraph:
         fs = [n._stop(timeout=timeout) for n in self._async_nodes.values()]
 
         # Initiate stop (this unblocks the root's step, that is waiting for an action).
-        if len(self._synchronizer.action) > 0:
+        try:
             self._synchronizer.action[-1].cancel()
+        except IndexError:
+            pass  # No pending action (the supervisor's worker pops it concurrently, so do not check-then-act)
 
         # Wait for all nodes to stop
         [f.result() for f in fs]  # Wait for all nodes to stop
